@@ -313,6 +313,29 @@ func (w *World) forkAtWait(c *ContactState, rec *SessionRec, live flows.Session,
 	if pf != "" && pf != wf {
 		variants = append(variants, variant{name: "parent_flow_deleted", noGoError: true, mutate: del(pf)})
 	}
+	// the flows the session is not sitting in (children it has run or may enter next)
+	others := func(fn func(f *storedFlow)) func(doc gen.J, fl []*storedFlow) []*storedFlow {
+		return func(doc gen.J, fl []*storedFlow) []*storedFlow {
+			for _, f := range fl {
+				if string(f.uuid) != wf && string(f.uuid) != pf {
+					fn(f)
+				}
+			}
+			return fl
+		}
+	}
+	if len(w.Sc.Flows) > 1 {
+		variants = append(variants,
+			variant{name: "other_flows_unreadable", noGoError: true, mutate: others(func(f *storedFlow) { f.def = f.def[:len(f.def)/2] })},
+			variant{name: "other_flows_invalid", noGoError: true, mutate: others(func(f *storedFlow) {
+				var def gen.J
+				if json.Unmarshal(f.def, &def) == nil {
+					def["nodes"] = []any{gen.J{"uuid": "not-a-uuid", "exits": []any{}}}
+					f.def, _ = json.Marshal(def)
+				}
+			})},
+			variant{name: "other_flows_deleted", noGoError: true, mutate: others(func(f *storedFlow) { f.deleted = true })})
+	}
 	if pf != "" && parentNode != "" {
 		variants = append(variants, variant{name: "parent_node_removed", noGoError: true, mutate: editFlow(pf, func(def gen.J) {
 			nodes, _ := def["nodes"].([]any)
